@@ -470,7 +470,7 @@ func main() {
 	r := ev.New("C11", "model_checking",
 		"source tuples: k in 0..3 sources, each a list of 0..3 items with timestamps from {missing, t1<t2<t3} in every order (ties, unsorted); quick: all tuples of <=2 sources with <=3 items and 3 sources with <=2 items, "+
 			"thorough: all tuples of <=3 sources with <=3 items; per tuple an explicit-state search over request sequences (sizes {0,1,2,3,5}, state = items delivered), every transition replayed on a fresh real Splicer "+
-			"over synthetic Container sources, every continuation asked twice, plus every unmerged request pair (optionally followed by an empty request) and then a large request; long sources (1,19..22,39..41,64,100 items; one source, long+short, two interleaved) under single requests of 19..128 items and a few two-request sequences; real posts built from JSON (eleven spellings of the published time incl. fractions of a second, an offset, and years 1, 1600, 1969, 2300 and 9999) in every pair of sources with <=2 items; real paged collections (page sizes 1..3 over <=3 embedded pages, with and without an unreadable last reference, which makes a source hand over an error item beyond the number asked for) alone and in every pair under 7 request patterns, judged against the merge of what each source delivers alone; distinct_nontrivial = tuples with >=2 non-empty sources")
+			"over synthetic Container sources, every continuation asked twice, plus every unmerged request pair (optionally followed by an empty request) and then a large request; long sources (1,19..22,39..41,64,100 items; one source, long+short, two interleaved) under single requests of 19..128 items and a few two-request sequences; real posts built from JSON (eleven spellings of the published time incl. fractions of a second, an offset, and years 1, 1600, 1969, 2300 and 9999) in every pair of sources with <=2 items; real paged collections (page sizes 1..3 over <=3 embedded pages, with and without an unreadable last reference, which makes a source hand over an error item beyond the number asked for) alone and in every pair under 7 request patterns, judged against the merge of the sources as written down (every item of every page, then the error item), with per-page and zero totalItems; distinct_nontrivial = tuples with >=2 non-empty sources")
 	if *ev.FlagReplay != "" {
 		var s session
 		if key := ev.LoadReplay(*ev.FlagReplay, &s); strings.HasPrefix(key, "paged:") {
